@@ -486,9 +486,8 @@ class simplify_chained_calls(FuncADLNodeTransformer):
         """
         # Get the value out - this is due to supporting python 3.7-3.9
         n = s.value
-        if n is None:
+        if not isinstance(n, int):
             return ast.Subscript(v, s, ast.Load())  # type: ignore
-        assert isinstance(n, int), "Programming error: index is not an integer in tuple subscript"
         if n >= len(v.elts):
             raise FuncADLIndexError(
                 f"Attempt to access the {n}th element of a tuple only"
@@ -504,7 +503,7 @@ class simplify_chained_calls(FuncADLNodeTransformer):
         Only works if index is a number
         """
         n = s.value
-        if n is None:
+        if not isinstance(n, int):
             return ast.Subscript(v, s, ast.Load())  # type: ignore
         if n >= len(v.elts):
             raise FuncADLIndexError(
@@ -519,7 +518,8 @@ class simplify_chained_calls(FuncADLNodeTransformer):
         {t1, t2, t3...}[1] => t2
         """
         sub = s.value
-        assert isinstance(sub, (str, int))
+        if not isinstance(sub, (str, int)):
+            return ast.Subscript(v, s, ast.Load())  # type: ignore
         return self.visit_Subscript_Dict_with_value(v, sub)
 
     def visit_Subscript_Dict_with_value(self, v: ast.Dict, s: Union[str, int]):
@@ -529,7 +529,7 @@ class simplify_chained_calls(FuncADLNodeTransformer):
             if value.value == s:
                 return copy.deepcopy(v.values[index])
 
-        return ast.Subscript(v, s, ast.Load())  # type: ignore
+        return ast.Subscript(v, ast.Constant(value=s), ast.Load())  # type: ignore
 
     def visit_Subscript_Of_First(self, first: ast.expr, s):
         """
@@ -558,12 +558,14 @@ class simplify_chained_calls(FuncADLNodeTransformer):
         """
         v = self.visit(node.value)
         s = self.visit(node.slice)
-        if type(v) is ast.Tuple:
-            return self.visit_Subscript_Tuple(v, s)
-        if type(v) is ast.List:
-            return self.visit_Subscript_List(v, s)
-        if type(v) is ast.Dict:
-            return self.visit_Subscript_Dict(v, s)
+        # Only a constant index or key can be looked up in a literal now.
+        if isinstance(s, ast.Constant):
+            if type(v) is ast.Tuple:
+                return self.visit_Subscript_Tuple(v, s)
+            if type(v) is ast.List:
+                return self.visit_Subscript_List(v, s)
+            if type(v) is ast.Dict:
+                return self.visit_Subscript_Dict(v, s)
 
         if is_call_of(v, "First"):
             return self.visit_Subscript_Of_First(v.args[0], s)
